@@ -27,6 +27,7 @@ import (
 )
 
 type Clause struct {
+	Pkg   string // package path of the file the clause was written in
 	Own   bool   // not inherited through `like`
 	Kind  string // requires ensures invariant decreases assume
 	Text  string
@@ -61,6 +62,9 @@ type Contract struct {
 	Pos      token.Position
 	File     *ast.File
 	Params   []string // for externs/functypes without resolvable decl: optional names
+	Pairs      string       // the load-time checker whose acceptance establishes the `checked` clauses
+	Checked    []*Clause    // facts established at load time by the paired checker (assumed at entry, proved as lemmas from the checker's postconditions)
+	NoInv      []string     // parameters whose object invariant is neither assumed at entry nor required at calls (initialisers)
 	ExitsSeparate bool      // check the postconditions at every return separately instead of on the merged exit
 	Like       []string     // func blocks: copy requires/ensures/modifies of these contracts (same package)
 	Implements string       // func blocks: "<pkg>.<FuncType>" or "<pkg>.<Iface>.<Method>" whose contract this function must satisfy
@@ -108,7 +112,9 @@ type Sweep struct {
 type ContractSet struct {
 	Defaults map[string][]string // pkgpath -> type texts whose parameters are non-nil by default
 	Frames   map[string][]string // named frame sets: name -> items
+	FramePkg map[string]string   // named frame -> package path of the file that defines it
 	TypeInvs []TypeInv           // module-wide type-level invariants
+	GlobalNonNil map[string]bool // package-level variables that are never nil (checked at stores, assumed at loads)
 	ByKey  map[string]*Contract // key: kind + " " + pkgpath + " " + name
 	Specs  map[string]*SpecFun  // pkgpath + "." + name, and bare name
 	Sweeps []*Sweep
@@ -235,10 +241,24 @@ func (cs *ContractSet) readFile(fset *token.FileSet, f *ast.File, pkgPath, pkgNa
 						cs.Frames = map[string][]string{}
 					}
 					name := strings.TrimSpace(rest[:i])
+					if cs.FramePkg == nil {
+						cs.FramePkg = map[string]string{}
+					}
+					cs.FramePkg[name] = pkgPath
 					cs.Frames[name] = append(cs.Frames[name], splitTop(rest[i+1:])...)
 					lastFrame = name
 				} else {
 					errf(pos, "bad frame directive")
+				}
+			case "global":
+				f := strings.Fields(rest)
+				if len(f) == 2 && f[1] == "nonnil" {
+					if cs.GlobalNonNil == nil {
+						cs.GlobalNonNil = map[string]bool{}
+					}
+					cs.GlobalNonNil[pkgPath+"."+f[0]] = true
+				} else {
+					errf(pos, "bad global directive")
 				}
 			case "typeinv":
 				f := strings.Fields(rest)
@@ -279,6 +299,8 @@ func (cs *ContractSet) readFile(fset *token.FileSet, f *ast.File, pkgPath, pkgNa
 					cur.Trusted = true
 				case "params":
 					cur.Params = strings.Fields(rest)
+				case "noinv":
+					cur.NoInv = append(cur.NoInv, strings.Fields(rest)...)
 				case "exits":
 					cur.ExitsSeparate = rest == "separate"
 				case "like":
@@ -315,10 +337,16 @@ func (cs *ContractSet) readFile(fset *token.FileSet, f *ast.File, pkgPath, pkgNa
 						cur.Modifies = append(cur.Modifies, items...)
 						cur.HasMod = true
 					}
+				case "pairs":
+					cur.Pairs = rest
+				case "checked":
+					cl := &Clause{Kind: "checked", Text: rest, Props: props, Pos: pos, Pkg: pkgPath}
+					lastClause = cl
+					cur.Checked = append(cur.Checked, cl)
 				case "requires", "ensures", "invariant", "decreases", "assume", "ownrequires", "ownensures":
 					own := strings.HasPrefix(word, "own")
 					word = strings.TrimPrefix(word, "own")
-					cl := &Clause{Kind: word, Text: rest, Props: props, Pos: pos, Own: own}
+					cl := &Clause{Kind: word, Text: rest, Props: props, Pos: pos, Own: own, Pkg: pkgPath}
 					lastClause = cl
 					switch {
 					case word == "requires":
